@@ -129,6 +129,10 @@ CORPUS_RUNS = [
      [(1, "SOL", "OW", 1, 0.1, 0.2, 0.3), (1, "SOL", "HW1", 2, 0.4, 0.5, 0.6), (1, "SOL", "HW2", 3, 0.7, 0.8, 0.9)]),
     ({"title": "undeclared, velocities", "natoms": None, "fmt": (9, 4), "box": ("mat", [[3.0, 0.0, 0.0], [0.5, 3.0, 0.0], [0.25, 0.5, 3.0]])},
      [(99999, "A", "B", 100000, 0.1, 0.2, 0.3, 0.01, 0.02, 0.03), (1, "e5", "12", 1, 0.1, 0.2, 0.3, 1.0, 2.0, 3.0)]),
+    # every token of these atom lines is a number: only the blank count field (not the content of the lines)
+    # keeps a half-written file from being read as "0 atoms + box line"
+    ({"title": "numeric names", "natoms": None, "fmt": None, "box": ("default",)},
+     [(1, "e5", "12", 1, 0.1, 0.2, 0.3), (2, "7", "8", 2, 0.4, 0.5, 0.6)]),
 ]
 
 
